@@ -362,7 +362,8 @@ define_function(data_serial_correlation)
       for (i = 0; i < data_len; i++)
       {
         sccun = (double) *(block_data + data_offset + i);
-        if (i == 0)
+        // The first byte of the whole range, not of each block.
+        if (total_len - data_len + i == 0)
         {
           sccfirst = sccun;
         }
@@ -448,6 +449,9 @@ define_function(data_monte_carlo_pi)
   int mcount = 0;
   int inmont = 0;
 
+  unsigned int monte[6];
+  size_t monte_idx = 0;
+
   double INCIRC = pow(pow(256.0, 3.0) - 1, 2.0);
   double mpi = 0;
 
@@ -470,8 +474,6 @@ define_function(data_monte_carlo_pi)
   {
     if (offset >= block->base && offset < block->base + block->size)
     {
-      unsigned int monte[6];
-
       size_t data_offset = (size_t) (offset - block->base);
       size_t data_len = (size_t) yr_min(
           length, (size_t) (block->size - data_offset));
@@ -484,11 +486,13 @@ define_function(data_monte_carlo_pi)
       offset += data_len;
       length -= data_len;
 
-      for (i = 0; i < data_len; i++)
+      for (i = 0; i < data_len; i++, monte_idx++)
       {
-        monte[i % 6] = (unsigned int) *(block_data + data_offset + i);
+        // monte_idx counts the bytes of the whole range, so that the 6-byte
+        // groups are not restarted at every block.
+        monte[monte_idx % 6] = (unsigned int) *(block_data + data_offset + i);
 
-        if (i % 6 == 5)
+        if (monte_idx % 6 == 5)
         {
           double mx = 0;
           double my = 0;
